@@ -260,12 +260,10 @@ InScope == ph = "hist" => /\ Len(net.ctrl) \in 1..MaxMods
 W3 == {0 - 1, 1, 2}
 W2 == {0 - 1, 2}
 VecsQ == {<<2, 0 - 1>>, <<0 - 1, 3>>}
-VecsT == {<<2, 0 - 1>>, <<0 - 1, 3>>, <<0, 1>>}
 VecsOne == {<<2, 0 - 1>>}
 SchemesLinear  == {<<"linear">>}
 SchemesQuick   == {<<"linear">>, <<"step", "clip", "abs">>}
-SchemesMixed   == {<<"linear">>, <<"clip", "linear">>, <<"step", "abs">>}
 SchemesRec1    == {<<"linear", "clip">>}
 SchemesRec     == {<<"linear", "clip">>, <<"step", "abs">>}
-SchemesAll     == {<<"linear">>, <<"clip", "linear">>, <<"step", "abs">>, <<"abs", "step", "clip">>, <<"step">>}
+SchemesThree   == {<<"linear">>, <<"clip", "linear">>, <<"abs", "step", "clip">>}
 =============================================================================
